@@ -8,5 +8,5 @@ Extraction "../ocaml/C18/c18_ext.ml"
   GlobModel.glob_match GlobModel.tokenize
   FilterModel.filter_parse FilterModel.filter_parse_disk
   FilterModel.g_filter_path FilterModel.g_filter_subdir FilterModel.g_filter_emptydir
-  FilterModel.g_sel_excluded FilterModel.g_parity_excluded FilterModel.g_scan_skips
+  FilterModel.g_sel_excluded FilterModel.g_parity_excluded FilterModel.g_scan_skips FilterModel.g_scan_why
   FilterModel.filter_hidden FilterModel.filter_content.
